@@ -71,6 +71,10 @@ impl<'de, T> Visitor<'de> for TooDeeVisitor<T>
         if product != data.len() {
             return Err(de::Error::invalid_length(product, &"dimensions to match array length"))
         }
+        if (num_cols == 0) != (num_rows == 0) {
+            // `from_vec` would panic: empty arrays have no dimensions
+            return Err(de::Error::invalid_value(Unexpected::Other("exactly one zero dimension"), &"both dimensions to be zero for an empty array"))
+        }
         Ok(TooDee::from_vec(num_cols, num_rows, data))
     }
 }
